@@ -49,6 +49,7 @@ Inductive sop :=
 | SCreateColl (name : string)
 | SDropColl (name : string)
 | SDump (coll : string) (start : N)      (* a one-shot (Dump) feed with backfill from CAS `start` *)
+| SReopen                                (* an on-disk bucket: every handle closed, then reopened *)
 | SExpire.                       (* the expiry timer fires (bucket.doExpiration) *)
 
 Record sres := mkSres {
@@ -157,9 +158,38 @@ Definition sstep (s : store) (x : sctx) (o : sop) : sres :=
       | Some cid => mkSres s ROk [] (marker FBegin :: backfill_events s cid start ++ [marker FEnd])
       | None => mkSres s (RErr EOther) [] []
       end
+  | SReopen => mkSres s ROk [] []
   | SExpire =>
       let '(s', evs) := expire_colls s x (map fst (s_colls s)) [] in
       mkSres s' ROk evs []
+  end.
+
+(* ------------------------------------------------------------------------------------------ *)
+(* The expiry manager's nextExp (0: no timer armed).  scheduleExpirationAtOrBefore:               *)
+Definition sched (next e : N) : N :=
+  if e =? 0 then next else if (next =? 0) || (e <? next) then e else next.
+
+(* SELECT min(exp) FROM documents WHERE exp > 0   (0: no such row) *)
+Definition min_exp (s : store) : N := fold_left sched (map (fun d => r_exp (snd d)) (s_docs s)) 0.
+
+Definition is_touch (op : kop) : bool := match op with KTouch _ | KGetAndTouch _ => true | _ => false end.
+Definition resp_is_err (r : resp) : bool := match r with RErr _ => true | _ => false end.
+
+(* nextExp after a step: every posted event schedules its expiry (postNewEvent); a successful touch
+   schedules the new expiry itself; the timer callback clears nextExp, expires, and re-arms from
+   min(exp); OpenBucket of an existing bucket arms from min(exp) *)
+Definition next_after (next : N) (s : store) (o : sop) (res : sres) : N :=
+  match o with
+  | SExpire | SReopen => sched 0 (min_exp (sr_store res))
+  | SKv coll key op =>
+      let n1 := fold_left sched (map (fun e => e_exp (snd e)) (sr_events res)) next in
+      if is_touch op && negb (resp_is_err (sr_resp res)) then
+        match coll_id s coll with
+        | Some cid => match get_doc (sr_store res) (cid, key) with Some r => sched n1 (r_exp r) | None => n1 end
+        | None => n1
+        end
+      else n1
+  | _ => next
   end.
 
 (* ------------------------------------------------------------------------------------------ *)
@@ -185,8 +215,10 @@ Record snapshot := mkSnap {
   sn_colls : list string;                          (* ListDataStores *)
   sn_rows : list ((string * string) * obsrow);     (* (collection name, key) *)
   sn_order : list (string * list string);          (* per collection: keys of the dump feed in order *)
-  sn_lastcas : list (string * N)                   (* not observable through the API; model-only *)
+  sn_lastcas : list (string * N)                   (* [("nextExp", the expiry manager's nextExp)] (hook accessor) *)
 }.
+
+Definition with_next (sn : snapshot) (n : N) : snapshot := mkSnap (sn_colls sn) (sn_rows sn) (sn_order sn) [("nextExp", n)].
 
 Definition snap (s : store) (colls keys xnames : list string) : snapshot :=
   let live := filter (fun c => is_some (coll_id s c)) colls in
@@ -222,17 +254,18 @@ Record scase := mkScase {
 Definition fevents_of (evs : list (N * string * event)) : list fevent :=
   map (fun e => as_feed_event (fst (fst e) - 1) (snd (fst e)) (snd e)) evs.
 
-Fixpoint srun_from (s : store) (c : scase) (steps : list (sctx * sop)) : list ostep :=
+Fixpoint srun_from (s : store) (next : N) (c : scase) (steps : list (sctx * sop)) : list ostep :=
   match steps with
   | [] => []
   | (x, o) :: r =>
       let res := sstep s x o in
+      let next' := next_after next s o res in
       mkOstep (sr_resp res) (fevents_of (sr_events res)) (sr_dump res)
-              (snap (sr_store res) (sc_colls c) (sc_keys c) (sc_xnames c))
-      :: srun_from (sr_store res) c r
+              (with_next (snap (sr_store res) (sc_colls c) (sc_keys c) (sc_xnames c)) next')
+      :: srun_from (sr_store res) next' c r
   end.
 
-Definition srun (c : scase) : list ostep := srun_from store0 c (sc_steps c).
+Definition srun (c : scase) : list ostep := srun_from store0 0 c (sc_steps c).
 
 Fixpoint sfinal_from (s : store) (steps : list (sctx * sop)) : store :=
   match steps with
